@@ -446,7 +446,7 @@ BOUNDS = {"quick": {"default": 2, "H5-producers-vs-pump": 1, "H8-tcp-write-vs-di
 
 def run(tier):
     report = Report(PROP, "model_checking", tier)
-    budget = 120 if tier == "quick" else 2400
+    budget = 400 if tier == "quick" else 2400
     deadline = time.time() + budget
     ctx = multiprocessing.get_context("fork")
     per = {}
